@@ -6,7 +6,9 @@ Parameters of the lexer model (C12).
   `unicode.IsSpace`).  They are Go library behaviour; the model takes them as a parameter.  Theorems
   quantify over every `CharClass` (some need `CharClass.AsciiExact`: agreement with the ASCII tables
   below on code points < 128).  The driver instantiates it with tables dumped from the Go toolchain's
-  `unicode` package (`Gen/UnicodeTables.lean`).
+  `unicode` package (`Gen/UnicodeTables.lean`).  The structure also carries `notInAnySpace`, the shape of
+  lexer.go `acceptWord` that the translator found in the source (two shapes are recognised, anything else is
+  refused): the model of `acceptWord` follows it (`wordBlank`, `wordEnd`), theorems hold for both values.
 * `LexTables`: the class strings, keyword lists and escape tables that lexer.go / state.go / utils.go state
   literally.  The translator regenerates them (`Gen/LexTables.lean`); `Props/C12.lean` proves that the
   regenerated value is `LexTables.std`, the value every theorem is stated for.
